@@ -17,7 +17,10 @@ theorem clauseMatchNoSeg_err_kind {rx ctx c} {e : EvalErr}
       · cases h
       · split at h
         · cases h
-        · split at h <;> cases h
+        · split at h
+          · cases h
+          · cases h
+          · split at h <;> cases h
 
 /-- Errors out of the segment rule loop are always wrapped. -/
 theorem segRules_err {rec : SegRec} {env chain s} : ∀ {rules st e st'},
@@ -113,6 +116,7 @@ theorem segMatchValues_err {rec : SegRec} {env negate chain} {P : EvalErr → Pr
     | num q => unfold segMatchValues at h; exact ih h
     | arr xs => unfold segMatchValues at h; exact ih h
     | obj kvs => unfold segMatchValues at h; exact ih h
+    | raw w => unfold segMatchValues at h; exact ih h
 
 theorem clauseMatch_err {rec : SegRec} {env chain c st e st'} {P : EvalErr → Prop}
     (hrec : ∀ seg st e st', rec seg chain st = (.err e, st') → P e)
